@@ -29,7 +29,7 @@ Inductive shape (w : world) (f : frame) (rest : list frame) (c' : config) : Prop
 Lemma started_call_snap : forall k d w ps pc pv pst t args g v ro rs child w',
     start_call k d w ps pc pv pst t args g v ro rs = SFrame child w' -> f_snap child = w.
 Proof.
-  intros until w'. unfold start_call.
+  intros until w'. unfold start_call, run_precompile.
   destruct (call_create_depth <? d); [discriminate|].
   destruct k; repeat match goal with
     | |- context [if ?b then _ else _] => destruct b
@@ -56,19 +56,19 @@ Proof.
     try solve [repeat match goal with |- context [if ?b then _ else _] => destruct b end; first [same | pop]].
   - (* CREATE *)
     match goal with |- context [start_create ?d ?ww ?a ?b ?c ?dd ?ee ?ff] =>
-      destruct (start_create d ww a b c dd ee ff) as [o gb w'|child w'|] eqn:Hs end; try same.
+      destruct (start_create d ww a b c dd ee ff) as [o gb w' iret|child w'|] eqn:Hs end; try same.
     pose proof (started_create_snap _ _ _ _ _ _ _ _ _ _ Hs) as [Hk Hsn].
     apply started_create_frame in Hs. destruct Hs as [Hst _].
     eapply sh_push with (child := child); [reflexivity| reflexivity | right; split; assumption | assumption].
   - (* CREATE2 *)
     match goal with |- context [start_create ?d ?ww ?a ?b ?c ?dd ?ee ?ff] =>
-      destruct (start_create d ww a b c dd ee ff) as [o gb w'|child w'|] eqn:Hs end; try same.
+      destruct (start_create d ww a b c dd ee ff) as [o gb w' iret|child w'|] eqn:Hs end; try same.
     pose proof (started_create_snap _ _ _ _ _ _ _ _ _ _ Hs) as [Hk Hsn].
     apply started_create_frame in Hs. destruct Hs as [Hst _].
     eapply sh_push with (child := child); [reflexivity| reflexivity | right; split; assumption | assumption].
   - (* CALL family *)
     match goal with |- context [start_call ?k ?d ?ww ?a ?b ?c ?dd ?ee ?ff ?gg ?hh ?ii ?jj] =>
-      destruct (start_call k d ww a b c dd ee ff gg hh ii jj) as [o gb w'|child w'|] eqn:Hs end; try same.
+      destruct (start_call k d ww a b c dd ee ff gg hh ii jj) as [o gb w' iret|child w'|] eqn:Hs end; try same.
     pose proof (started_call_snap _ _ _ _ _ _ _ _ _ _ _ _ _ _ _ Hs) as Hsn.
     apply started_call_frame in Hs. destruct Hs as [Hst _].
     eapply sh_push with (child := child); [reflexivity| reflexivity | left; assumption | assumption].
